@@ -9,5 +9,5 @@ for d in seeded/$PAT; do
     id=$(basename "$d")
     own=$(echo "$id" | cut -c1-3 | tr a-z A-Z)
     echo "== $id ($own $*)"
-    tools/run_mutant.sh "$d/patch.diff" "$own" "$@" 2>&1 | cut -c1-400 | tee "$d/caught.txt"
+    tools/run_mutant.sh "$d/patch.diff" "$own" "$@" 2>&1 | cut -b1-400 | iconv -f utf-8 -t utf-8 -c | tee "$d/caught.txt"
 done
